@@ -3,7 +3,7 @@
 # property's check, reverts, and writes seeded/REGRESSION.txt (one line per change).  Nothing else may use /repo meanwhile.
 cd "$(dirname "$(readlink -f "$0")")/.." || exit 2
 export VERIF_EVIDENCE_DIR=$PWD/.cache/evidence-seedtest
-out=seeded/REGRESSION.txt; : > $out.tmp
+out=${REGRESS_OUT:-seeded/REGRESSION.txt}; : > $out.tmp   # (REGRESS_OUT + VERIF_SEED: the same sweep at another seed)
 git -C /repo diff --quiet || { echo "/repo not clean"; exit 2; }
 for d in seeded/*/; do
   name=$(basename $d); prop=$(python3 -c "import json;m=json.load(open('$d/meta.json'));print(m.get('regress_check', m['property']))")   # (one change breaks a neighbouring property's statement: see DESIGN 11.14)
